@@ -246,7 +246,7 @@ fn twin_history(cfg: &Cfg, h: u64) -> (&'static str, String, Vec<String>, Vec<St
     match coll {
         "KeyExpTree" | "KeyExpList" => {
             let profs = key::profiles(false);
-            let mut p = profs[(h / 49 % 9) as usize].clone();
+            let mut p = profs[(h / 49 % profs.len() as u64) as usize].clone();
             p.export_end = false;
             p.len = match variant {
                 0 => 0,
@@ -256,6 +256,7 @@ fn twin_history(cfg: &Cfg, h: u64) -> (&'static str, String, Vec<String>, Vec<St
             if variant == 1 {
                 p.u = 200;
                 p.r = 300;
+                p.t_base = 0;
                 p.w = [80, 2, 5, 5, 5, 1, 0];
             }
             if small {
@@ -263,7 +264,7 @@ fn twin_history(cfg: &Cfg, h: u64) -> (&'static str, String, Vec<String>, Vec<St
                 p.u = p.u.min(14);
             }
             let (hint, pre) = key::gen_history(&p, &mut rng);
-            let mut q = profs[(h / 7 % 8) as usize].clone();
+            let mut q = profs[(h / 7 % profs.len() as u64) as usize].clone();
             q.len = q.len.min(if small { 20 } else { 70 });
             q.export_end = h % 2 == 0;
             let (_, suf) = key::gen_history(&q, &mut rng);
@@ -290,7 +291,7 @@ fn twin_history(cfg: &Cfg, h: u64) -> (&'static str, String, Vec<String>, Vec<St
         }
         _ => {
             let profs = ord::profiles(false);
-            let mut p = profs[(h / 49 % 9) as usize].clone();
+            let mut p = profs[(h / 49 % profs.len() as u64) as usize].clone();
             p.len = match variant {
                 0 => 0,
                 1 => 500,
@@ -307,7 +308,7 @@ fn twin_history(cfg: &Cfg, h: u64) -> (&'static str, String, Vec<String>, Vec<St
             let is_set = coll.starts_with("Set");
             let (hint, _, pre) = ord::gen_history(&p, is_set, &mut rng);
             let pre = if variant == 0 { vec![] } else { pre };
-            let mut q = profs[(h / 7 % 8) as usize].clone();
+            let mut q = profs[(h / 7 % profs.len() as u64) as usize].clone();
             q.len = q.len.min(if small { 20 } else { 90 });
             if small {
                 q.u = q.u.min(14);
